@@ -557,7 +557,7 @@ func runC05_6(c *core.Ctx) {
 				if cf == nil || cf.Pkg() == nil {
 					return true
 				}
-				if cf.Name() == "Go" && strings.HasSuffix(cf.Pkg().Path(), "errgroup") {
+				if nameOf(cf) == "Go" && strings.HasSuffix(cf.Pkg().Path(), "errgroup") {
 					// receiver must be <engine>.concurrency
 					r := flow.Recv(x)
 					ok := r != nil && flow.FieldOf(f.Info, r) != nil && flow.FieldOf(f.Info, r).Name() == "concurrency"
@@ -565,7 +565,7 @@ func runC05_6(c *core.Ctx) {
 					c.Check(ok && startup, f.Name, "errgroup.Go("+exprStr(x.Args[0])+")", x.Pos(), "loop/ticker goroutine joined by engine.concurrency.Wait()",
 						"a goroutine is spawned outside the start-up functions or not on engine.concurrency: a loop could be started twice or never joined")
 				}
-				if cf.Name() == "Submit" && strings.Contains(cf.Pkg().Path(), "ants") {
+				if nameOf(cf) == "Submit" && strings.Contains(cf.Pkg().Path(), "ants") {
 					c.Check(f.Name == "gnet.(*eventloop).enroll", f.Name, "worker pool Submit", x.Pos(), "enrol worker (reaches no user callback: C05.4)",
 						"a worker-pool task is submitted from an unexpected function")
 				}
